@@ -297,3 +297,110 @@ package strz
 //@     invariant 0 <= i && i <= len(str) && 0 <= start && start <= i
 //@     invariant (cap(buf.buf) == 0 || fresh(buf.buf)) && oldUntouched(buf.buf)
 //@     decreases len(str) - i
+
+// ---- re-implemented strconv.ParseUint (C15); the same contract is checked against the standard library's source ----
+
+//@ spec pfxLen(s bytes_any, base int) int = ite(base != 0 || len(s) == 0 || s[0] != 48, 0, ite(len(s) >= 3 && (lowerOf(s[1]) == 98 || lowerOf(s[1]) == 111 || lowerOf(s[1]) == 120), 2, 1))
+//@ spec effBase(s bytes_any, base int) int = ite(base != 0, base, ite(len(s) == 0 || s[0] != 48, 10, ite(len(s) >= 3 && lowerOf(s[1]) == 98, 2, ite(len(s) >= 3 && lowerOf(s[1]) == 120, 16, 8))))
+//@ recspec hvalu(s bytes, eb int, i int) int = ite(i <= 0, 0, ite(s[i-1] == 95, hvalu(s, eb, i-1), hvalu(s, eb, i-1)*eb + dval(s[i-1])))
+//@ spec digitsOK(s bytes_any, base int) bool = forall k in pfxLen(s, base)..len(s): (s[k] == 95 && base == 0) || (s[k] != 95 && dval(s[k]) < effBase(s, base))
+//@ spec maxOf(bitSize int) int = (1 << ite(bitSize == 0, 64, bitSize)) - 1
+//@ spec inRangeAll(s bytes_any, base int, bitSize int) bool = forall k in 0..len(s)-pfxLen(s, base)+1: hvalu(s[pfxLen(s, base):len(s)], effBase(s, base), k) <= maxOf(bitSize)
+//@ spec hasUnderscore(s bytes_any, base int) bool = !(forall k in pfxLen(s, base)..len(s): s[k] != 95)
+
+// underscoreOK as a state machine over the class of the last character seen: 94 '^' start, 48 digit/prefix, 95 '_', 33 other, 0 rejected
+//@ spec uokStep(saw int, c int, hex bool) int = ite(saw == 0, 0, ite((48 <= c && c <= 57) || (hex && 97 <= lowerOf(c) && lowerOf(c) <= 102), 48, ite(c == 95, ite(saw != 48, 0, 95), ite(saw == 95, 0, 33))))
+//@ recspec uokRun(s bytes, lo int, j int, saw int, hex bool) int = ite(j <= lo, saw, uokStep(uokRun(s, lo, j-1, saw, hex), s[j-1], hex))
+//@ spec uokSign(s bytes_any) int = ite(len(s) >= 1 && (s[0] == 45 || s[0] == 43), 1, 0)
+//@ spec uokPfx(s bytes_any, g int) bool = len(s) - g >= 2 && s[g] == 48 && (lowerOf(s[g+1]) == 98 || lowerOf(s[g+1]) == 111 || lowerOf(s[g+1]) == 120)
+//@ spec uokFinal(s bytes_any) int = uokRun(s, uokSign(s) + ite(uokPfx(s, uokSign(s)), 2, 0), len(s), ite(uokPfx(s, uokSign(s)), 48, 94), uokPfx(s, uokSign(s)) && lowerOf(s[uokSign(s)+1]) == 120)
+//@ spec uokSpec(s bytes_any) bool = uokFinal(s) != 0 && uokFinal(s) != 95
+
+//@ lemma uokAbsorb(s seq, lo int, j int, k int, saw int, hex bool)
+//@   decreases k - j
+//@   ih s, lo, j, k-1, saw, hex
+//@   ensures (j <= k && uokRun(s, lo, j, saw, hex) == 0) ==> uokRun(s, lo, k, saw, hex) == 0
+
+//@ func underscoreOK
+//@   ghost s0 = s
+//@   ensures result == uokSpec(s)
+//@   at end:
+//@     assert i < len(s) ==> uokStep(saw, s[i], hex) == 0
+//@     assert i < len(s) ==> uokRun(s0, uokSign(s0) + ite(uokPfx(s0, uokSign(s0)), 2, 0), uokSign(s0) + i + 1, ite(uokPfx(s0, uokSign(s0)), 48, 94), hex) == 0
+//@     apply uokAbsorb(content(s0), uokSign(s0) + ite(uokPfx(s0, uokSign(s0)), 2, 0), uokSign(s0) + i + 1, len(s0), ite(uokPfx(s0, uokSign(s0)), 48, 94), hex)
+//@   loop 1:
+//@     invariant len(s) == len(s0) - uokSign(s0) && forall k in 0..len(s): s[k] == s0[uokSign(s0) + k]
+//@     invariant ite(uokPfx(s0, uokSign(s0)), 2, 0) <= i && i <= len(s)
+//@     invariant hex == (uokPfx(s0, uokSign(s0)) && lowerOf(s0[uokSign(s0)+1]) == 120)
+//@     invariant saw == uokRun(s0, uokSign(s0) + ite(uokPfx(s0, uokSign(s0)), 2, 0), uokSign(s0) + i, ite(uokPfx(s0, uokSign(s0)), 48, 94), hex) && saw != 0
+//@     decreases len(s) - i
+
+//@ spec parseOK(s bytes_any, base int, bitSize int) bool = len(s) > 0 && (base == 0 || (2 <= base && base <= 36)) && 0 <= bitSize && bitSize <= 64 && digitsOK(s, base) && inRangeAll(s, base, bitSize) && (hasUnderscore(s, base) ==> uokSpec(s))
+
+//@ func ParseUint
+//@   requires base == 2 || base == 8 || base == 10 || base == 16 || base == 36
+//@   split base values 2 8 10 16 36
+//@   ensures result2 == nil ==> parseOK(s, base, bitSize)
+//@   ensures parseOK(s, base, bitSize) ==> result2 == nil
+//@   ensures result2 == nil ==> result1 == hvalu(s[pfxLen(s, base):len(s)], effBase(s, base), len(s) - pfxLen(s, base))
+//@   ensures result2 != nil ==> result1 == 0 || result1 == maxOf(bitSize)
+//@   loop 1:
+//@     invariant 0 <= i && i <= len(s) && len(s) == len(s0) - pfxLen(s0, old(base)) && forall k in 0..len(s): s[k] == s0[pfxLen(s0, old(base)) + k]
+//@     invariant base == effBase(s0, old(base)) && base0 == (old(base) == 0) && 2 <= base && base <= 36
+//@     invariant maxVal == maxOf(old(bitSize)) && 0 <= old(bitSize) && old(bitSize) <= 64
+//@     invariant n == hvalu(s, base, i) && n <= maxVal
+//@     invariant forall k in 0..i: (s[k] == 95 && base0) || (s[k] != 95 && dval(s[k]) < base)
+//@     invariant forall k in 0..i+1: hvalu(s, base, k) <= maxVal
+//@     invariant underscores == !(forall k in 0..i: s[k] != 95)
+//@     decreases len(s) - i
+//@   at end:
+//@     assert (i < len(s) && s[i] != 95) ==> hvalu(s, base, i+1) == hvalu(s, base, i)*base + dval(s[i])
+
+// ---- re-implemented encoding/hex (C15); the same contracts are checked against the standard library's source ----
+
+//@ spec hexv(c int) int = ite(48 <= c && c <= 57, c - 48, ite(97 <= c && c <= 102, c - 87, ite(65 <= c && c <= 70, c - 55, 255)))
+//@ spec hexch(d int) int = ite(d < 10, 48 + d, 87 + d)
+
+//@ func fromHexChar
+//@   ensures result2 == (hexv(c) != 255) && (result2 ==> result1 == hexv(c)) && (!result2 ==> result1 == 0)
+
+//@ func hexEncode
+//@   requires len(dst) >= 2*len(src) && !sameArray(dst, src)
+//@   modifies dst[0:2*len(src)]
+//@   ensures result == 2*len(src)
+//@   ensures forall k in 0..len(src): dst[2*k] == hexch(src[k]/16) && dst[2*k+1] == hexch(src[k]%16)
+//@   loop 1:
+//@     invariant 0 <= i && i <= len(src) && j == 2*i && unchangedOutside(dst, 0, j)
+//@     invariant forall k in 0..i: dst[2*k] == hexch(src[k]/16) && dst[2*k+1] == hexch(src[k]%16)
+//@     decreases len(src) - i
+
+//@ func hexDecode
+//@   requires len(dst) >= len(src)/2
+//@   requires !sameArray(dst, src) || dst.off == src.off
+//@   modifies dst[0:len(src)/2]
+//@   ensures 0 <= result1 && result1 <= len(src)/2
+//@   ensures forall k in 0..result1: hexv(old(src[2*k])) != 255 && hexv(old(src[2*k+1])) != 255 && dst[k] == 16*hexv(old(src[2*k])) + hexv(old(src[2*k+1]))
+//@   ensures (result2 == nil) == (len(src)%2 == 0 && result1 == len(src)/2)
+//@   ensures result1 < len(src)/2 ==> hexv(old(src[2*result1])) == 255 || hexv(old(src[2*result1+1])) == 255
+//@   ensures (result1 == len(src)/2 && len(src)%2 == 1 && hexv(old(src[len(src)-1])) != 255) ==> result2 == hex.ErrLength
+//@   loop 1:
+//@     invariant 0 <= i && j == 2*i + 1 && j <= len(src) + 1 && unchangedOutside(dst, 0, i)
+//@     invariant forall k in 2*i..len(src): src[k] == old(src[k])
+//@     invariant forall k in 0..i: hexv(old(src[2*k])) != 255 && hexv(old(src[2*k+1])) != 255 && dst[k] == 16*hexv(old(src[2*k])) + hexv(old(src[2*k+1]))
+//@     decreases len(src) + 1 - j
+
+//@ func HexEncode
+//@   ensures fresh(result) && len(result) == 2*len(s)
+//@   ensures forall k in 0..len(s): result[2*k] == hexch(s[k]/16) && result[2*k+1] == hexch(s[k]%16)
+
+//@ func HexDecode
+//@   ensures fresh(result1) && 0 <= len(result1) && len(result1) <= len(s)/2
+//@   ensures forall k in 0..len(result1): hexv(s[2*k]) != 255 && hexv(s[2*k+1]) != 255 && result1[k] == 16*hexv(s[2*k]) + hexv(s[2*k+1])
+//@   ensures (result2 == nil) == (len(s)%2 == 0 && len(result1) == len(s)/2)
+//@   ensures len(result1) < len(s)/2 ==> hexv(s[2*len(result1)]) == 255 || hexv(s[2*len(result1)+1]) == 255
+
+//@ func HexDecodeInPlace
+//@   modifies b[0:len(b)/2]
+//@   ensures 0 <= result1 && result1 <= len(b)/2
+//@   ensures forall k in 0..result1: b[k] == 16*hexv(old(b[2*k])) + hexv(old(b[2*k+1]))
+//@   ensures (result2 == nil) == (len(b)%2 == 0 && result1 == len(b)/2)
